@@ -349,7 +349,16 @@ def abi_consts_worker(args):
     return C11.c_worker((args[0], args[1], 'c-consts'))
 
 
+def abi_enum_table_worker(args):
+    """out-of-line ABI mode: the module's enum entry (recompiler.EnumExpr.as_python_expr -> ffiobj_init) denotes the integer
+    type of the enum's size and signedness, for each of the 8 (size, signedness) rows: harness/C11.py's tables obligation"""
+    from harness import C11
+    return C11.tables_worker((args[0], args[1], 'tables', '0', False, args[3]))
+
+
 def dispatch(args):
+    if args[2] == 'abi-enum-table':
+        return abi_enum_table_worker(args)
     return {'base': base_worker, 'values': values_worker, 'c': c_worker, 'api': api_worker, 'abi-consts': abi_consts_worker}[args[2]](args)
 
 
@@ -364,10 +373,12 @@ def run(chk):
     cases += [P + ('c', n) for n in range(1, 4 if quick else 5)]
     cases.append(P + ('api',))
     cases.append(P + ('abi-consts',))
+    for row in [(1, 0), (1, 1), (2, 0), (2, 1), (4, 0), (4, 1), (8, 0), (8, 1)]:
+        cases.append(P + ('abi-enum-table', row))
     chk.bounds = {'underlying type': 'enums of 1..%d enumerators with arbitrary integer values' % (2 if quick else 3),
                   'values': 'every explicit/implicit pattern of <= %d enumerators, explicit values arbitrary' % NE,
                   'ffi.string': 'enums of <= %d enumerators with arbitrary (possibly duplicate) int values, any stored value' % (3 if quick else 4)}
-    chk.bounds['out-of-line ABI mode'] = 'every enumerator value in [-2**63, 2**64) through the module\'s _globals unpacking'
+    chk.bounds['out-of-line ABI mode'] = 'every enumerator value in [-2**63, 2**64) through the module\'s _globals unpacking; the enum entry for each of the 8 (size, signedness) rows'
     chk.bounds['API mode'] = '_cffi_prim_int(size, sign) / _cffi_prim_float(size) for every 64-bit size and every sign'
     chk.outside = ['that the C compiler evaluates sizeof(enum) and ((enum)-1) <= 0 as it lays the enum out (the compiler); enumerator values in API mode are C12\'s constants',
                    'explicit values given by expressions (C09)', 'enums declared with "..."']
